@@ -23,7 +23,7 @@ RULE = ("cases: (adjacency, assignment kinds, intervention target sets, n).  dis
         ' Also: models with up to 14 variables (labels >= 8), adjacency matrices mixing 18 orders of magnitude or holding minute non-zero weights, numpy-int n and keys, noise distributions that replay a stored table (same array object each call, two consecutive samples).')
 ASSUMPTIONS = ["targets that are simultaneously shift- and noise-intervened are excluded (the property's quantifier does)"]
 EXHAUSTIVE = {"quick": False, "thorough": False}
-SOFT_LIMIT = {"quick": 240, "thorough": 1500}
+SOFT_LIMIT = {"quick": 1200, "thorough": 5400}      # generous wall-clock watchdogs (a loaded machine must not cut a workload short); normal run times are in the evidence
 REQUIRED_FUNCS = ["sempler/anm.py:ANM.sample", "sempler/anm.py:ANM.__init__"]
 REQUIRED_COUNTERS = {"quick": {"columns:do": 1000, "columns:shift": 1000, "columns:noise-iv": 1000, "columns:plain": 3000,
                                "columns:do-overrides-other": 300, "assign:column-returning": 500, "assign:scalar-returning": 200,
